@@ -60,7 +60,7 @@ pub fn lop_toks(op: &Operation) -> String {
     }
 }
 
-fn fmt_op_list(l: &[Operation]) -> String {
+pub fn fmt_op_list(l: &[Operation]) -> String {
     let mut s = format!("{}", l.len());
     for o in l {
         s.push_str(" ; ");
